@@ -8,6 +8,7 @@ EXTENDS Transforms, Json, IOUtils, CSV
 VARIABLES i, nbad
 Ev == ndJsonDeserialize(IOEnv.FV_TRACE)
 Inside(x, y) == SelectSeq(y, LAMBDA v : InBounds(x, v))
+InsideB(lb, ub, y) == SelectSeq(y, LAMBDA v : lb <= v /\ v <= ub)
 Expected(e) ==
   CASE e.t = "center" -> [id |-> e.id, train |-> Center(e.x, e.x), new |-> Center(e.x, e.later), ok |-> CenterMeanZero(e.x)]
     [] e.t = "scale" -> [id |-> e.id, train |-> ScaleSq(e.x, e.x), new |-> ScaleSq(e.x, e.later),
@@ -15,9 +16,11 @@ Expected(e) ==
     [] e.t = "poly" -> [id |-> e.id, sq |-> [q \in 1..e.degree |-> PolySq(e.x, e.degree, q)],
                         sign |-> [q \in 1..e.degree |-> PolySign(e.x, e.degree, q)], ok |-> PolyOrthogonal(e.x, e.degree)]
     [] e.t = "bs" ->
-         LET m == BSMatrix(e.x, e.x, e.ninner, e.degree, e.intercept)
-             m2 == BSMatrix(e.x, Inside(e.x, e.later), e.ninner, e.degree, e.intercept)
-         IN [id |-> e.id, train |-> m, new |-> m2, later |-> Inside(e.x, e.later), knots |-> InnerKnots(e.x, e.ninner),
+         LET lb == Min(e.x) - e.lbo
+             ub == Max(e.x) + e.ubo
+             m == BSMatrixB(e.x, e.x, e.ninner, e.degree, e.intercept, lb, ub)
+             m2 == BSMatrixB(e.x, InsideB(lb, ub, e.later), e.ninner, e.degree, e.intercept, lb, ub)
+         IN [id |-> e.id, train |-> m, new |-> m2, later |-> InsideB(lb, ub, e.later), knots |-> InnerKnots(e.x, e.ninner),
              ok |-> BSNonNegative(m) /\ BSNonNegative(m2) /\ (e.intercept => (BSPartitionOfUnity(m) /\ BSPartitionOfUnity(m2)))]
 Init == i = 1 /\ nbad = 0
 Step ==
